@@ -85,6 +85,12 @@ def judge (m : MonState) (now : Int) (p : Presented) (obs : Option Tokens) : Opt
 def onCallback (m : MonState) (code : String) (req : AuthReq) : MonState :=
   { m with issued := m.issued.filter (·.code != code) ++ [{ code := code, req := req }] }
 
+/-- state update: the user (re-)authenticated for request `id`.  The tokens of a later exchange carry the subject
+    and authentication time the request has THEN, so the codes handed out for it follow the request. -/
+def onLogin (m : MonState) (id subject : String) (authTime : Int) : MonState :=
+  { m with issued := m.issued.map fun i =>
+      if i.req.id == id then { i with req := { i.req with done := true, subject := subject, authTime := authTime } } else i }
+
 /-- state update: a successful exchange consumes the code -/
 def onExchange (m : MonState) (p : Presented) (obs : Option Tokens) : MonState :=
   match obs with
